@@ -1,9 +1,11 @@
-(* C05 (dispatch order, status propagation): the model's traces are accepted by the C05 checker
-   of the specification.  Built on top of the C04 simulation (EventsInv.v): the C04 checker state
-   c4 already knows every live registration with its kind; the lists the C05 checker keeps are
-   projections of it (R45), so the classification of an invoked id comes for free and only the
-   order facts (I1: queues below minq are empty; FIFO queues = registration order) and the
-   control state of the dispatcher have to be tracked in addition. *)
+(* C05 (dispatch order, status propagation), first part.  Built on top of the C04 simulation
+   (EventsInv.v): the C04 checker state c4 already knows every live registration with its kind;
+   the lists the C05 checker keeps are projections of it (R45), so the classification of an
+   invoked id comes for free.  This file has the projection relation and the order facts about
+   the immediate queues (ImmOrd: I1 "queues below minq are empty", FIFO queues = registration
+   order, events_immediate_get returns what imm_best of the specification selects).
+   EventsRun5.v adds the timer heap / clock / descriptor-table invariants and the control state
+   of the dispatcher and proves that check_c05 accepts every trace of the model. *)
 From Coq Require Import NArith ZArith List Bool Arith Lia Permutation.
 From LCP Require Import Base.CheckedMem Events.EventsTrace Events.EventsSpec Events.EventsModel Events.EventsLemmas Events.EventsNetInv Events.EventsHeap Events.EventsSpecProofs Events.EventsInv.
 Import ListNotations.
